@@ -25,6 +25,10 @@ pub enum Edge {
     Base(usize),
     Ptr(usize, bool),
     PtrArray(usize, usize),
+    /// pointer to an array of the type: `*mut [T; n]`
+    PtrToArray(usize, usize),
+    /// pointer to a pointer: `*const *mut T`
+    PtrPtr(usize),
     Enum(usize),
     /// undefined name: by value / behind pointer / in array
     Undef(u8),
@@ -75,7 +79,7 @@ pub fn unresolvable(g: &Graph) -> (BTreeSet<usize>, BTreeSet<usize>) {
             let fine = g.edges[t].iter().all(|e| match e {
                 Edge::ByValue(x) | Edge::Array(x, _) | Edge::Base(x) => ok_t.contains(x),
                 Edge::Enum(x) => ok_e.contains(x),
-                Edge::Ptr(..) | Edge::PtrArray(..) | Edge::Scalar => true,
+                Edge::Ptr(..) | Edge::PtrArray(..) | Edge::PtrToArray(..) | Edge::PtrPtr(..) | Edge::Scalar => true,
                 Edge::Undef(_) => false,
             });
             if fine {
@@ -118,7 +122,7 @@ pub fn graph_to_mods(g: &Graph, ptrw: usize) -> Mods {
                 cur += match e {
                     Edge::ByValue(x) | Edge::Base(x) => size[x],
                     Edge::Array(x, n) => size[x] * n,
-                    Edge::Ptr(..) => ptrw,
+                    Edge::Ptr(..) | Edge::PtrToArray(..) | Edge::PtrPtr(..) => ptrw,
                     Edge::PtrArray(_, n) => ptrw * n,
                     Edge::Enum(_) => 4,
                     Edge::Scalar => 8,
@@ -151,7 +155,7 @@ pub fn graph_to_mods(g: &Graph, ptrw: usize) -> Mods {
             .iter()
             .filter(|(x, k)| *x == t && *k >= 2)
             .map(|(_, k)| {
-                let mut f = Function::new((Visibility::Public, format!("vbad{k}_{t}").as_str()), [Argument::ConstSelf]);
+                let mut f = Function::new((Visibility::Public, format!("{}vbad{k}_{t}", if t % 2 == 1 { "_" } else { "" }).as_str()), [Argument::ConstSelf]);
                 if *k == 2 {
                     f.arguments.push(Argument::named("p", Type::ident("MissingParam").const_pointer()));
                 } else {
@@ -182,6 +186,8 @@ pub fn graph_to_mods(g: &Graph, ptrw: usize) -> Mods {
                 Edge::Array(x, n) => (Type::ident(&tname(*x)).array(*n), size.get(x).copied().unwrap_or(8) * n, false),
                 Edge::Ptr(x, m) => (if *m { Type::ident(&tname(*x)).mut_pointer() } else { Type::ident(&tname(*x)).const_pointer() }, ptrw, false),
                 Edge::PtrArray(x, n) => (Type::ident(&tname(*x)).const_pointer().array(*n), ptrw * n, false),
+                Edge::PtrToArray(x, n) => (Type::ident(&tname(*x)).array(*n).mut_pointer(), ptrw, false),
+                Edge::PtrPtr(x) => (Type::ident(&tname(*x)).mut_pointer().const_pointer(), ptrw, false),
                 Edge::Enum(x) => (Type::ident(&ename(*x)), 4, false),
                 Edge::Scalar => (Type::ident("u64"), 8, false),
                 Edge::Undef(0) => (Type::ident("Missing"), 8, false),
@@ -206,7 +212,7 @@ pub fn graph_to_mods(g: &Graph, ptrw: usize) -> Mods {
         let mut fns = vec![];
         for (x, k) in g.fn_undef.iter().filter(|(x, k)| *x == t && *k < 2) {
             let _ = x;
-            let mut f = Function::new((Visibility::Public, format!("bad{k}_{t}").as_str()), [Argument::ConstSelf]).with_attributes([Attribute::address(0x1000_0000 + t * 0x100 + *k as usize * 0x40)]);
+            let mut f = Function::new((if t % 3 == 0 { Visibility::Private } else { Visibility::Public }, format!("{}bad{k}_{t}", if t % 2 == 1 { "_" } else { "" }).as_str()), [Argument::ConstSelf]).with_attributes([Attribute::address(0x1000_0000 + t * 0x100 + *k as usize * 0x40)]);
             if *k == 0 {
                 f.arguments.push(Argument::named("p", Type::ident("MissingParam")));
             } else {
@@ -263,7 +269,11 @@ pub fn random_graph(rng: &mut Rng, prefix: &str) -> Graph {
                     }
                 }
                 3..=5 => Edge::Ptr(rng.below(ntypes), rng.coin()),
-                6 => Edge::PtrArray(rng.below(ntypes), rng.range(1, 3)),
+                6 => match rng.below(3) {
+                    0 => Edge::PtrArray(rng.below(ntypes), rng.range(1, 3)),
+                    1 => Edge::PtrToArray(rng.below(ntypes), rng.range(0, 3)),
+                    _ => Edge::PtrPtr(rng.below(ntypes)),
+                },
                 7 if nenums > 0 => Edge::Enum(rng.below(nenums)),
                 _ => Edge::Scalar,
             };
